@@ -187,6 +187,18 @@ void LayoutSession::checkC07(const char *when) {
         for (auto &sp : seps) if (sp.dim == dim && !sp.eq && find((int)sp.l) == find((int)sp.r)) redundantInEqBlock = true;
         for (auto &ap : aps) if (ap.dim == dim && !ap.eq && !als[ap.a].sh.empty() && !als[ap.b].sh.empty() && find((int)als[ap.a].sh[0].first) == find((int)als[ap.b].sh[0].first)) redundantInEqBlock = true;
         for (auto &b : bds) if (b.dim == dim) for (size_t i = 0; i < b.sh.size(); i++) for (size_t j = i + 1; j < b.sh.size(); j++) if ((b.sh[i].second < 0) != (b.sh[j].second < 0) && find((int)b.sh[i].first) == find((int)b.sh[j].first)) redundantInEqBlock = true;
+        // the same situation reached through a PATH of inequalities: two different nodes of one equality block that are also
+        // joined by inequalities outside it (7 -> 4 -> 6 with 7 and 6 tied by alignments and an exact multi-separation): once the
+        // path's first inequalities have merged, its last one lies inside the block
+        if (!redundantInEqBlock) {
+            std::vector<int> par2(rs.size()); for (size_t i = 0; i < par2.size(); i++) par2[i] = (int)i;
+            std::function<int(int)> find2 = [&](int x) { while (par2[x] != x) x = par2[x] = par2[par2[x]]; return x; };
+            auto uni2 = [&](unsigned a, unsigned b) { if (a < par2.size() && b < par2.size()) par2[find2((int)a)] = find2((int)b); };
+            for (auto &sp : seps) if (sp.dim == dim && !sp.eq) uni2(sp.l, sp.r);
+            for (auto &ap : aps) if (ap.dim == dim && !ap.eq && !als[ap.a].sh.empty() && !als[ap.b].sh.empty()) uni2(als[ap.a].sh[0].first, als[ap.b].sh[0].first);
+            for (size_t u = 0; u < rs.size() && !redundantInEqBlock; u++) for (size_t v = u + 1; v < rs.size(); v++)
+                if (find((int)u) == find((int)v) && find2((int)u) == find2((int)v)) { redundantInEqBlock = true; break; }
+        }
     }
     std::string sfx = !lastProjectionByMakeFeasible ? "" : spec["cfg"].boolean("contradiction", false) ? ":contradictory-set:dropped-by-makeFeasible-without-report"
                       : redundantInEqBlock ? ":satisfiable-set:inequality-inside-an-equality-block:dropped-by-makeFeasible-without-report" : ":satisfiable-set:dropped-by-makeFeasible-without-report";
